@@ -41,6 +41,24 @@ class Session:
     pass
 
 
+MARGINS = {}
+
+
+def _margin(name, impl, model, rtol, atol):
+    """record the largest observed deviation relative to the tolerance of a float comparison (1.0 = at the limit)"""
+    a = np.atleast_1d(np.asarray(impl, dtype=float)); b = np.atleast_1d(np.asarray(model, dtype=float))
+    if a.shape != b.shape:
+        return
+    m = np.isfinite(a) & np.isfinite(b)
+    if not np.any(m):
+        return
+    r = float(np.max(np.abs(a[m] - b[m]) / (atol + rtol * np.abs(b[m]))))
+    e = MARGINS.setdefault(name, {"max_dev_over_tol": 0.0, "rtol": rtol, "atol": atol, "n": 0})
+    e["n"] += 1
+    if r > e["max_dev_over_tol"]:
+        e["max_dev_over_tol"] = r
+
+
 def _pt_eq(impl, model_vec, tol=1e-12):
     """model point vs implementation point; the model's empty vector is the all-NaN point"""
     impl = np.asarray(impl, dtype=float).ravel()
@@ -250,6 +268,7 @@ def leg_compare(B, S, out):
     else:
         for n, (lam, used) in enumerate(zip(tr, S.ns)):
             want = [min(math.exp(min(L, 50.0)), 1.0) if L == L else math.nan for L in lam]
+            _margin("legacy:adapted-scale", used, want, 1e-9, 1e-300)
             if not np.allclose(used, want, rtol=1e-9, atol=1e-300, equal_nan=True):
                 diffs.append(("adapted-scale", {"update": n, "min(exp(log lambd),1)": want}, [float(v) for v in used]))
                 break
@@ -431,6 +450,8 @@ def exp_compare(B, S, out):
         else:
             for n, (ml, t) in enumerate(zip(tr, S.tunes)):
                 il = _logv(t["temp1"])
+                _margin("session:tuned-log-lambda", il, ml, 1e-9, 1e-9)
+                _margin("session:tuned-scale", t["scale1"], [min(math.exp(min(L, 50.0)), 1.0) if L == L else math.nan for L in ml], 1e-9, 1e-300)
                 if not np.allclose(il, ml, rtol=1e-9, atol=1e-9, equal_nan=True):
                     diffs.append(("tuned-log-lambda", {"update": n, "log_lambda": ml}, il))
                     break
@@ -451,6 +472,7 @@ def tune_compare(B, t, out):
     ml = [_xval(v) for v in lam1.split(",")]
     il = _logv(t["temp1"])
     diffs = []
+    _margin("tune-call:log-lambda", il, ml, 1e-9, 1e-9)
     if not np.allclose(il, ml, rtol=1e-9, atol=1e-9, equal_nan=True):
         diffs.append(("tune-call", {"log_lambda_after": ml, "skip_len": t["T"], "update_count": t["i"]}, il))
     want = [math.exp(_xval(v)) if _xval(v) == _xval(v) else math.nan for v in sc1.split(",")]      # exp(capLog(log lambd)) = min(lambd, 1)
@@ -464,6 +486,7 @@ def tune_compare(B, t, out):
 def generate(B, ctx, cuqi, records, stats):
     """runs the sessions on the real code; returns the list of Session objects"""
     thorough = ctx.tier == "thorough"
+    MARGINS.clear()
     sessions = []
     so = [0]
 
@@ -689,6 +712,7 @@ def judge(B, ctx, cuqi, owners, outs, new_fail_keys, stats):
             key = new_fail_keys.get(k, f"{k}:{S.sc.cls}:session-tie:{field}")
             ctx.disagree(key, desc, mv, iv, f"loop model vs implementation: {field}")
     ctx.extra_cov["session_histogram"] = hist
+    ctx.extra_cov["margins"] = {**ctx.extra_cov.get("margins", {}), **MARGINS}
 
 
 def step_start_oracle(B, ctx, r):
@@ -711,6 +735,7 @@ def returned_cache_oracle(B, ctx, r):
     for c in range(min(chain.shape[1], len(le))):
         ctx.case(f"{k}:returned-cache", {"target": sc.name, "column": c, "mode": mode, "N": N, "Nb": Nb})
         true = sc.F(chain[:, c])
+        _margin("oracle:returned-cache", le[c], true, 1e-9, 1e-9)
         if not (B.same_float(le[c], true) or close(le[c], true, 1e-9)):
             ctx.fail(f"{k}:{sc.cls}:returned-cache", {"kernel": k, "target": sc.name, "call": f"{'sample_adapt' if mode == 'A' else 'sample'}({N}, {Nb})",
                                                         "column": c, "returned_state": [float(v) for v in chain[:, c]]},
